@@ -661,17 +661,24 @@ class Run:
         inner = o["gsc"]
 
         class Capped:
-            """user-level composite: the configured condition OR a metaepoch cap (keeps every run finite)"""
+            """user-level composite: the configured condition OR a metaepoch cap (keeps every run finite).
+            The wrapped condition is an attribute, as in a user's own composite: whatever the library does
+            with the condition object it was given (copying it included) reaches the wrapped one."""
+
+            def __init__(self, inner, cap):
+                self.inner = inner
+                self.cap = cap
+                self.last_user = None
 
             def __call__(self, tree):
-                iv = bool(inner(tree))
-                self.last_user = iv if isinstance(inner, UserGSC) else None
-                return iv or tree.metaepoch_count >= cap
+                iv = bool(self.inner(tree))
+                self.last_user = iv if isinstance(self.inner, UserGSC) else None
+                return iv or tree.metaepoch_count >= self.cap
 
             def __str__(self):
-                return f"Capped({inner},{cap})"
+                return f"Capped({self.inner},{self.cap})"
 
-        self.inner_gsc = Capped()
+        self.inner_gsc = Capped(inner, cap)
         gsc = self._wrap_gsc(self.inner_gsc)
         sm = self._wrap_mechanism(o["sm"])
         orig_init = T.init_from_config
@@ -856,7 +863,12 @@ def monitored_run(spec, pids):
     run = Run(copy.deepcopy(spec))
     holder["run"] = run
     h8["run"] = run
-    run.execute(on_boundary=on_boundary, on_gsc=on_gsc)
+    cma_log = None
+    if "C11" in pids:
+        with M.cma_protocol() as cma_log:
+            run.execute(on_boundary=on_boundary, on_gsc=on_gsc)
+    else:
+        run.execute(on_boundary=on_boundary, on_gsc=on_gsc)
     res = {}
     if "C01" in pids:
         res["C01"] = M.c01(run)
@@ -883,6 +895,8 @@ def monitored_run(spec, pids):
     if "C11" in pids or "C12" in pids:
         o11, o12 = M.c11_c12(run)
         res["C11"], res["C12"] = o11, o12
+        if cma_log is not None:
+            res["C11"] = res["C11"] + M.c11_cma(run, cma_log)
     if "C20" in pids:
         res["C20"] = s20["viol"]
     if "C18" in pids:
@@ -900,48 +914,62 @@ def corpus_specs():
     return [json.loads(l)["spec"] for l in open(p) if l.strip()]
 
 
+def _monitor_worker(args):
+    """one traced run under the monitors (runs in a pool process); returns plain data"""
+    spec, pid, also = args
+    try:
+        run, res = monitored_run(spec, {pid, *also})
+    except Exception as e:  # the run itself crashed: report, with the spec as replay
+        import traceback
+
+        from .common import is_env_crash
+
+        if is_env_crash(e):
+            return {"status": "env", "exc": type(e).__name__}
+        return {"status": "crash", "detail": f"{type(e).__name__}: {e}; {traceback.format_exc()[-600:]}"}
+    viol, seen = [], set()
+    for v in res.get(pid, []):
+        if v["signature"] in seen:
+            continue
+        seen.add(v["signature"])
+        viol.append({"signature": v["signature"], "detail": v["detail"]})
+    return {"status": "ok", "demes": list(run.order), "steps": run.steps, "rounds": len(run.rounds),
+            "calls": sum(1 for e in run.ev if e[0] == "EVAL"), "events": len(run.ev), "viol": viol}
+
+
 def monitor_batch(ctx, pid, n, salt=11, name=None, force=None, also=()):
     """run `n` random configurations under the monitors of `pid`; returns a Slice"""
-    from .common import Slice
+    from .common import Slice, pmap
 
     sl = Slice(name or f"traced-runs-monitor-{pid}")
     sl.is_trace = True
     rng = ctx.rng(salt)
-    todo = corpus_specs() + [None] * n
-    for i, cs in enumerate(todo):
-        spec = cs if cs is not None else rand_spec(rng, **(force(rng) if callable(force) else (force or {})))
-        try:
-            run, res = monitored_run(spec, {pid, *also})
-        except Exception as e:  # the run itself crashed: report, with the spec as replay
-            import traceback
-
-            from .common import is_env_crash
-
-            if is_env_crash(e):
-                sl.skipped += 1
-                sl.count("skipped:third-party-library-raised:" + type(e).__name__)
-                continue
-            sl.violations.append({"signature": f"{pid}/run-crashed", "detail": f"{type(e).__name__}: {e}; {traceback.format_exc()[-600:]}", "replay": {"spec": spec}})
+    n = ctx.boost(n) if hasattr(ctx, "boost") else n
+    specs = [cs if cs is not None else rand_spec(rng, **(force(rng) if callable(force) else (force or {}))) for cs in corpus_specs() + [None] * n]
+    results = pmap(_monitor_worker, [(spec, pid, tuple(also)) for spec in specs], chunksize=2)
+    for i, (spec, r) in enumerate(zip(specs, results)):
+        if r["status"] == "env":
+            sl.skipped += 1
+            sl.count("skipped:third-party-library-raised:" + r["exc"])
+            continue
+        if r["status"] == "crash":
+            sl.violations.append({"signature": f"{pid}/run-crashed", "detail": r["detail"], "replay": {"spec": spec}})
             continue
         sl.cases += 1
         d = describe(spec)
         sl.count("engines:" + ">".join(d["engines"]))
         sl.count("gsc:" + d["gsc"])
         sl.count("sprout:" + d["sprout"])
-        sl.count("demes", len(run.order))
-        sl.count("metaepochs", run.steps)
-        sl.count("rounds", len(run.rounds))
-        sl.count("objective-calls", sum(1 for e in run.ev if e[0] == "EVAL"))
-        if len(run.order) >= 2 and run.steps >= 2:
+        sl.count("demes", len(r["demes"]))
+        sl.count("metaepochs", r["steps"])
+        sl.count("rounds", r["rounds"])
+        sl.count("objective-calls", r["calls"])
+        if len(r["demes"]) >= 2 and r["steps"] >= 2:
             sl.nontrivial.add(spec_id(spec))
-        seen = set()
-        for v in res.get(pid, []):
-            if v["signature"] in seen:
-                continue
-            seen.add(v["signature"])
+        for v in r["viol"]:
             sl.violations.append({"signature": v["signature"], "detail": v["detail"], "replay": {"spec": spec, "describe": d}})
         if i < 2:
-            sl.sample({"spec": d, "metaepochs": run.steps, "demes": run.order, "events": len(run.ev)})
+            sl.sample({"spec": d, "metaepochs": r["steps"], "demes": r["demes"], "events": r["events"]})
     return sl
 
 
